@@ -149,6 +149,28 @@ where
     }
 }
 
+/// Runs the parser with the old node.
+/// If the old node (or a part of it) turns out to be affected by the change,
+/// the parser is run again without it, instead of reporting a failure.
+/// To be used wherever a failure would make a surrounding `alt` choose
+/// a different alternative than it would for the same tokens without an old node.
+pub(super) fn or_fresh<'a, 'b, O, F>(
+    this: Option<&'b O>,
+    mut parser: F,
+) -> impl FnMut(TokenStream<'a>) -> IResult<'a, O> + 'b
+where
+    F: IncInnerParser<'a, O> + 'b,
+    O: Clone,
+{
+    move |input: TokenStream<'a>| match parser.parse(this, input.clone()) {
+        Err(nom::Err::Error(ParserError {
+            kind: ParserErrorKind::Affected,
+            ..
+        })) if this.is_some() => parser.parse(None, input),
+        result => result,
+    }
+}
+
 #[derive(Debug, Clone)]
 struct CommaPreceded<O> {
     inner: Reference<O>,
